@@ -55,9 +55,9 @@ type Config struct {
 	// FundedOther: balances in denoms other than the minting denom (look-alike spellings such as "UUSDC"):
 	// denom -> bech32 address -> amount.
 	FundedOther map[string]map[string]*big.Int
-	Double    bool                    // use the ledger double instead of the real bank+FTF
-	Fold      bool                    // double only: denom comparison is case-insensitive
-	FTFPaused bool
+	Double      bool // use the ledger double instead of the real bank+FTF
+	Fold        bool // double only: denom comparison is case-insensitive
+	FTFPaused   bool
 	// Blacklisted raw 20-byte addresses at the FTF.
 	Blacklisted [][]byte
 	MintDenom   string // fiat-token-factory minting denom (default "uusdc")
@@ -458,7 +458,9 @@ type QueryError struct {
 	Log       string
 }
 
-func (e *QueryError) Error() string { return fmt.Sprintf("query error %s/%d: %s", e.Codespace, e.Code, e.Log) }
+func (e *QueryError) Error() string {
+	return fmt.Sprintf("query error %s/%d: %s", e.Codespace, e.Code, e.Log)
+}
 
 // KV is one raw store entry.
 type KV struct{ K, V []byte }
